@@ -79,7 +79,6 @@ type Stream struct {
 
 	readDeadline  time.Time
 	writeDeadline time.Time
-	readTimer     *time.Timer
 
 	// if inFallbackState is set to true, sending should use uds
 	inFallbackState bool
@@ -153,22 +152,13 @@ func (s *Stream) readMore(minSize int) (err error) {
 	var timeoutCh <-chan time.Time
 	deadline := s.readDeadline
 	if !deadline.IsZero() {
-		if s.readTimer == nil {
-			s.readTimer = time.NewTimer(time.Until(deadline))
-		} else {
-			s.readTimer.Reset(time.Until(deadline))
-		}
-		timeoutCh = s.readTimer.C
+		// a timer of its own for every wait: a reused timer whose tick was delivered after the (non-blocking) drain of the
+		// previous wait made the next read return ErrTimeout long before its deadline
+		readTimer := time.NewTimer(time.Until(deadline))
+		defer readTimer.Stop()
+		timeoutCh = readTimer.C
 	}
 
-	defer func() {
-		if s.readTimer != nil && !s.readTimer.Stop() {
-			select {
-			case <-s.readTimer.C:
-			default:
-			}
-		}
-	}()
 	for {
 		select {
 		case <-s.recvNotifyCh:
